@@ -1024,6 +1024,78 @@ def _search_loops(fn: ast.FunctionDef) -> int:
     return done
 
 
+def _append_loops_as_comprehensions(fn: ast.FunctionDef) -> int:
+    """`xs = []; for v in it: [temps;] xs.append(e)` (nothing else in the loop, nothing touching xs in between) is
+    `xs = [e for v in it]`; same for dict fills.  The rule packs read the comprehension form."""
+    from .kernelspec import _collect_loop
+    done = 0
+
+    def visit(stmts: list[ast.stmt]) -> list[ast.stmt]:
+        nonlocal done
+        out: list[ast.stmt] = []
+        for st in stmts:
+            for field in ("body", "orelse", "finalbody"):
+                sub = getattr(st, field, None)
+                if isinstance(sub, list) and sub and isinstance(sub[0], ast.stmt) and not isinstance(st, (ast.FunctionDef, ast.ClassDef)):
+                    setattr(st, field, visit(sub))
+            if isinstance(st, ast.Try):
+                for h in st.handlers:
+                    h.body = visit(h.body)
+            if isinstance(st, ast.For) and not st.orelse and st.body:
+                try:
+                    if _collect_loop(st, out):
+                        done += 1
+                        continue
+                except Exception:  # noqa: BLE001
+                    pass
+            out.append(st)
+        return out
+    fn.body = visit(fn.body)
+    return done
+
+
+_GENERATED = __import__("re").compile(r".+__\w+?\d+$")
+
+
+def _coalesce_result_copies(fn: ast.FunctionDef) -> int:
+    """`u__helper3 = ...; [statements using only u__helper3]; t = u__helper3` where u__helper3 is a name the inliner made
+    (a local of a dissolved helper) and t occurs nowhere between the first occurrence of u__helper3 and the copy:
+    the helper's local IS the caller's t - rename it and drop the copy."""
+    done = 0
+    changed = True
+    while changed:
+        changed = False
+        for node in ast.walk(fn):
+            for field in ("body", "orelse", "finalbody"):
+                body = getattr(node, field, None)
+                if not isinstance(body, list):
+                    continue
+                for pos, st in enumerate(body):
+                    if not (isinstance(st, ast.Assign) and len(st.targets) == 1 and isinstance(st.targets[0], ast.Name) and isinstance(st.value, ast.Name)
+                            and _GENERATED.match(st.value.id) and not _GENERATED.match(st.targets[0].id)):
+                        continue
+                    t, u = st.targets[0].id, st.value.id
+                    # every occurrence of u lies in this block, before the copy
+                    inside = [n for b in body[:pos] for n in ast.walk(b) if isinstance(n, ast.Name) and n.id == u]
+                    everywhere = [n for n in ast.walk(fn) if isinstance(n, ast.Name) and n.id == u]
+                    if len(inside) + 1 != len(everywhere) or not inside:
+                        continue
+                    first = next(i for i, b in enumerate(body[:pos]) if any(isinstance(n, ast.Name) and n.id == u for n in ast.walk(b)))
+                    if any(isinstance(n, ast.Name) and n.id == t for b in body[first:pos] for n in ast.walk(b)):
+                        continue
+                    for n in inside:
+                        n.id = t
+                    del body[pos]
+                    done += 1
+                    changed = True
+                    break
+                if changed:
+                    break
+            if changed:
+                break
+    return done
+
+
 def apply(tree: ast.Module, module: str = "") -> list[str]:
     """Dissolve transparent helpers of `tree` into their callers (in place). -> names inlined (one per call site)."""
     if _has_walrus(tree):
@@ -1038,11 +1110,13 @@ def apply(tree: ast.Module, module: str = "") -> list[str]:
     aliases = 0
     for n in ast.walk(tree):
         if isinstance(n, ast.FunctionDef):
+            aliases += _coalesce_result_copies(n)
             aliases += _propagate_self_aliases(n)
             aliases += _sugar_divmod(n)
             aliases += _fold_loop_target_copies(n)
             aliases += _index_form_for_mutated_elements(n)
             aliases += _search_loops(n)
+            aliases += _append_loops_as_comprehensions(n)
             if any(isinstance(c, ast.Call) and _dotted(c.func) in ("itertools.count", "count") for c in ast.walk(n)):
                 aliases += _desugar_count_zip(n)
     if aliases:
